@@ -206,6 +206,8 @@ def make_cases(tier):
     cs = []
     quick = tier == 'quick'
     widths_all = list(range(7))
+    if not quick:
+        cs += [c + ('round0',) for c in make_cases('quick')]
     # (1) two threads, one operation each, same cell and same flavour: every unordered pair of operation kinds, every flavour
     for w in widths_all:
         for (k1, v1), (k2, v2) in itertools.combinations_with_replacement(ALLOPS, 2):
@@ -256,7 +258,28 @@ def be_cases(tier):
     for w in ((0, 5) if tier == 'quick' else range(7)):
         for (k1, v1), (k2, v2) in itertools.combinations_with_replacement(kinds, 2):
             cs.append(('be 2x1 rmw', [opw(k1, w, variant=v1)], [opw(k2, w, variant=v2)]))
+    # atomic load / store next to a read-modify-write of the same cell
+    for w in ((0, 5) if tier == 'quick' else range(7)):
+        for (k1, v1) in kinds[:3] if tier == 'quick' else kinds:
+            for k2 in ('st', 'ld'):
+                cs.append(('be 2x1 rmw+load/store', [opw(k1, w, variant=v1)], [opw(k2, w)]))
     return cs
+
+
+def be_key(job, key):
+    """big-endian configuration: name a race report by the KIND of the two accesses (the flavours all share one mechanism)"""
+    if not job.get('be') or not key.startswith('race|'):
+        return key
+    import re
+    labs = []
+    for l in key.split('|', 1)[1].split('+'):
+        if re.match(r'^i(32|64)_atomic_(load|store)', l):
+            labs.append('atomic-load-or-store')
+        elif re.match(r'^i(32|64)_atomic_rmw', l):
+            labs.append('mutex-rmw')
+        else:
+            labs.append(l)
+    return 'race|be|' + '+'.join(sorted(labs))
 
 
 def sched_part(chk, tier, be_only=False, origin_prop='C16'):
@@ -271,11 +294,14 @@ def sched_part(chk, tier, be_only=False, origin_prop='C16'):
         exes, d = build(flavours, root)
         dirs.append(d)
         for c in make_cases(tier):
+            rnd = 1 if tier != 'quick' else 0
+            if c[-1] == 'round0':
+                c, rnd = c[:-1], 0
             mix, threads = c[0], c[1:]
             words = ['%#x:%#x' % INIT] + ['.'.join(t) for t in threads]
             nops = sum(len(t) for t in threads)
             for fl in flavours:
-                jobs.append({'case': {'threads': words[1:], 'init': words[0]}, 'words': words, 'exe': exes[fl], 'flavour': fl, 'pb': PB[tier].get(mix, 2), 'db': 0, 'spurious': 0, 'mix': mix,
+                jobs.append({'case': {'threads': words[1:], 'init': words[0]}, 'words': words, 'exe': exes[fl], 'flavour': fl, 'pb': PB['quick' if rnd == 0 else tier].get(mix, 2), 'db': 0, 'spurious': 0, 'mix': mix, 'round': rnd,
                              'weight': nops ** len(threads) * (3 if fl == 'tsan' else 1)})
     exes_be, dbe = build(flavours, root, be=True)
     dirs.append(dbe)
@@ -288,6 +314,7 @@ def sched_part(chk, tier, be_only=False, origin_prop='C16'):
                          'mix': mix, 'be': True, 'weight': 50 * (3 if fl == 'tsan' else 1)})
     mx = mclib.Matrix(chk, [REPO] + dirs, projection=projection)
     mx.replay_module = 'c16_sched.py'
+    mx.key_hook = be_key
     results = mx.run(jobs, oracle, deadline_at)
     # machinery self-check of the coverage claim: for every little-endian case (one scheduling point per operation) the distinct
     # completion orders seen must be ALL linear extensions of the per-thread orders (multinomial count)
